@@ -20,7 +20,7 @@ student program computes or what a call receives) whose truth is in the shape of
 import ast
 
 from ..fdeval import Obj, Raised, Inconclusive
-from ..loader import AnalysisError
+from ..loader import AnalysisError, norm
 from ..symbols import Symbols
 
 SANDBOX = 'pedal.sandbox.sandbox'
@@ -440,6 +440,141 @@ def r9_ambient_state(ctx, sym):
     ctx.floor('R9', 'sandbox modules swept', n, 5)
 
 
+_STORES = {'append', 'add', 'setdefault', 'insert', 'id', 'type', 'isinstance'}
+
+
+def r10_trace_functions_only_store(ctx, sym):
+    ctx.rule('R10', "a trace function runs inside the student's frames: whatever it raises is raised in the student's "
+                    "program, and whatever student method it runs the plain program would not have run. In every trace "
+                    "callback of the tracer classes (the function handed to sys.settrace, bdb's user_* hooks, and the "
+                    "methods of the class they call), values taken from the traced frame (f_locals / f_globals entries, "
+                    "the return value or exception argument) are only stored: never passed to another function, "
+                    "copied, converted, compared, tested, indexed, iterated or asked for an attribute")
+    from ..astutil import call_name
+    from ..tables import literal
+    tmod = ctx.repo.module('pedal.sandbox.tracer')
+    table = literal(tmod.top_assign('TRACER_STYLES'), resolve_consts=False)
+    n_callbacks = 0
+    for style, cls_name in sorted(table.items()):
+        ci = sym.find_class('pedal.sandbox.tracer', str(cls_name))
+        roots = {}
+        for k in sym.mro(ci):
+            for mname, fn in getattr(k, 'methods', {}).items():
+                for c in ast.walk(fn):
+                    if isinstance(c, ast.Call) and call_name(c) == 'sys.settrace' and c.args and \
+                            isinstance(c.args[0], ast.Attribute) and isinstance(c.args[0].value, ast.Name) and \
+                            c.args[0].value.id == 'self':
+                        got = sym.method(ci, c.args[0].attr)
+                        if got is not None:
+                            roots[c.args[0].attr] = (got[1], 'arg3')
+        for hook, kind in (('user_call', 'none'), ('user_line', 'none'), ('user_return', 'arg2'),
+                           ('user_exception', 'arg2')):
+            got = sym.method(ci, hook)
+            if got is not None and got[0].module.name.startswith('pedal.'):
+                roots[hook] = (got[1], kind)
+        work = [(name, fn, kind, frozenset()) for name, (fn, kind) in sorted(roots.items())]
+        seen = set()
+        while work:
+            name, fn, kind, tainted_params = work.pop()
+            if (id(fn), tainted_params) in seen:
+                continue
+            seen.add((id(fn), tainted_params))
+            n_callbacks += 1
+            ctx.analysed_function(fn._module if hasattr(fn, '_module') else tmod, fn)
+            params = [a.arg for a in fn.args.args]
+            tainted = set(tainted_params)
+            if kind == 'arg3' and len(params) >= 4:
+                tainted.add(params[3])
+            if kind == 'arg2' and len(params) >= 3:
+                tainted.add(params[2])
+
+            def is_source(e):
+                # an entry of a frame's local/global variables
+                if isinstance(e, ast.Subscript) and isinstance(e.value, ast.Attribute) and \
+                        e.value.attr in ('f_locals', 'f_globals'):
+                    return True
+                if isinstance(e, ast.Call) and isinstance(e.func, ast.Attribute) and \
+                        e.func.attr in ('get', 'values', 'items', 'pop') and isinstance(e.func.value, ast.Attribute) \
+                        and e.func.value.attr in ('f_locals', 'f_globals'):
+                    return True
+                return False
+
+            def holds(e):
+                return any(is_source(x) or (isinstance(x, ast.Name) and x.id in tainted) for x in ast.walk(e))
+            # names that receive a frame value (or a container of them), to a fixed point
+            changed = True
+            while changed:
+                changed = False
+                for st in ast.walk(fn):
+                    if isinstance(st, ast.Assign) and holds(st.value):
+                        for t in st.targets:
+                            for x in ast.walk(t):
+                                if isinstance(x, ast.Name) and x.id not in tainted:
+                                    tainted.add(x.id)
+                                    changed = True
+                    if isinstance(st, (ast.For, ast.comprehension)) and holds(st.iter):
+                        for x in ast.walk(st.target):
+                            if isinstance(x, ast.Name) and x.id not in tainted:
+                                tainted.add(x.id)
+                                changed = True
+
+            def direct(e):
+                return is_source(e) or (isinstance(e, ast.Name) and e.id in tainted)
+            bad = []
+            for node in ast.walk(fn):
+                if isinstance(node, ast.Call):
+                    cname = call_name(node) or ''
+                    last = node.func.attr if isinstance(node.func, ast.Attribute) else cname.split('.')[-1]
+                    args_ = list(node.args) + [k.value for k in node.keywords]
+                    if is_source(node):
+                        continue
+                    if isinstance(node.func, ast.Attribute) and direct(node.func.value):
+                        bad.append((node, "calls .%s() on a value of the student's frame" % node.func.attr))
+                        continue
+                    if any(holds(a) for a in args_):
+                        if cname.startswith('self.') and cname.count('.') == 1 and sym.method(ci, last) is not None \
+                                and sym.method(ci, last)[0].module.name.startswith('pedal.'):
+                            callee = sym.method(ci, last)[1]
+                            cparams = [a.arg for a in callee.args.args][1:]
+                            tp = frozenset(p for p, a in zip(cparams, node.args) if holds(a)) | frozenset(
+                                k.arg for k in node.keywords if k.arg and holds(k.value))
+                            work.append((last, callee, 'none', tp))
+                        elif last not in _STORES:
+                            bad.append((node, "passes a value of the student's frame to %s()" % (cname or last)))
+                    elif cname.startswith('self.') and cname.count('.') == 1 and sym.method(ci, last) is not None and \
+                            sym.method(ci, last)[0].module.name.startswith('pedal.') and \
+                            any(isinstance(a, ast.Name) and a.id == 'frame' for a in args_):
+                        work.append((last, sym.method(ci, last)[1], 'none', frozenset()))
+                elif isinstance(node, ast.Compare):
+                    ops = [node.left] + list(node.comparators)
+                    if any(direct(o) for o in ops):
+                        bad.append((node, "compares a value of the student's frame"))
+                elif isinstance(node, (ast.BinOp,)) and (direct(node.left) or direct(node.right)):
+                    bad.append((node, "computes with a value of the student's frame"))
+                elif isinstance(node, (ast.If, ast.While, ast.IfExp)) and direct(node.test):
+                    bad.append((node, "tests the truth of a value of the student's frame"))
+                elif isinstance(node, ast.UnaryOp) and direct(node.operand):
+                    bad.append((node, "tests the truth of a value of the student's frame"))
+                elif isinstance(node, ast.FormattedValue) and direct(node.value):
+                    bad.append((node, "formats a value of the student's frame"))
+                elif isinstance(node, ast.Subscript) and direct(node.value) and not is_source(node):
+                    bad.append((node, "indexes a value of the student's frame"))
+                elif isinstance(node, ast.Attribute) and direct(node.value):
+                    bad.append((node, "reads attribute .%s of a value of the student's frame" % node.attr))
+                elif isinstance(node, (ast.For, ast.comprehension)) and direct(node.iter):
+                    bad.append((node, "iterates over a value of the student's frame"))
+            q = getattr(fn, '_qualname', name)
+            for node, why in bad:
+                ctx.fail('R10', 'trace-callback:%s:%s' % (q, norm(node)[:60]), tmod, node,
+                         "trace callback %s %s: `%s`" % (q, why, norm(node)[:100]),
+                         "tracer_style=%r and a student function that receives d.values(), a generator or an open file "
+                         "(or an object whose __deepcopy__/__eq__/__repr__ raises or prints): the program that ends "
+                         "normally under plain CPython ends with a TypeError raised at the call" % style, function=q)
+            if not bad:
+                ctx.ok('R10', 'trace-callback:%s' % q, sample={'frame values': sorted(tainted)}, nontrivial=bool(tainted))
+    ctx.floor('R10', 'trace callbacks analysed', n_callbacks, 2)
+
+
 def run(ctx):
     sym = Symbols(ctx.repo)
     mod = ctx.repo.module(SANDBOX)
@@ -455,6 +590,7 @@ def run(ctx):
     r6_inputs_verbatim(ctx, sym, mod)
     r7_imports_delegated(ctx, sym)
     r8_namespace_kept(ctx, sym, mod)
+    r10_trace_functions_only_store(ctx, sym)
     ctx.assume("observational equivalence itself (printed text, global values, exception kind and line for every "
                "program and input) is NOT decided: only the three structural clauses above, each a necessary "
                "condition of it; the input tracker's behaviour is decided under C15.R4, the patches' restoration "
